@@ -153,10 +153,11 @@ pub fn c05_alphabet(rich: bool) -> Vec<Op> {
     }
     v.push(Op::Read(0, 4096));
     v.push(Op::Write(0, 0));
-    for kind in 0..8 {
+    // kinds 8, 9: exactly one of the two time stamps (utimensat with UTIME_OMIT for the other)
+    for kind in 0..10 {
         v.push(Op::Setattr(0, kind, false));
     }
-    for kind in [0usize, 4, 5, 7] {
+    for kind in [0usize, 4, 5, 7, 9] {
         v.push(Op::Setattr(0, kind, true));
     }
     v.push(Op::Setattr(4, 0, false));
@@ -696,6 +697,26 @@ impl Pt {
                         };
                         (rc, errno())
                     }
+                    8 | 9 => {
+                        // one time stamp only: the other one must stay what it was
+                        let omit = libc::timespec { tv_sec: 0, tv_nsec: libc::UTIME_OMIT };
+                        let ts = if kind == 8 {
+                            valid |= k::FATTR_ATIME;
+                            fields.push(("atime", 3_000_000));
+                            fields.push(("atimensec", 11));
+                            [libc::timespec { tv_sec: 3_000_000, tv_nsec: 11 }, omit]
+                        } else {
+                            valid |= k::FATTR_MTIME;
+                            fields.push(("mtime", 4_000_000));
+                            fields.push(("mtimensec", 13));
+                            [omit, libc::timespec { tv_sec: 4_000_000, tv_nsec: 13 }]
+                        };
+                        let rc = match sfd {
+                            Some(fd) => unsafe { libc::futimens(fd, ts.as_ptr()) },
+                            None => unsafe { libc::utimensat(libc::AT_FDCWD, cp.as_ptr(), ts.as_ptr(), 0) },
+                        };
+                        (rc, errno())
+                    }
                     _ => {
                         valid |= k::FATTR_ATIME | k::FATTR_MTIME;
                         fields.push(("atime", 1_000_000));
@@ -729,6 +750,20 @@ impl Pt {
                                     if (me.atime(), me.mtime()) != (1_000_000, 2_000_000) {
                                         self.bad("setattr/times", format!("exported file has atime {} mtime {}", me.atime(), me.mtime()));
                                     }
+                                }
+                            }
+                            if kind == 8 || kind == 9 {
+                                // the time stamp that was set, in the reply and on the exported file (the other one is not
+                                // compared: reading the shadow file may move its atime)
+                                let m = std::fs::symlink_metadata(&path).unwrap();
+                                let me = std::fs::symlink_metadata(self.w.exp.join(NAMES[n])).ok();
+                                let (rep_t, host_t, exp_t, want) = if kind == 8 {
+                                    ((a.atime, a.atimensec), (m.atime() as u64, m.atime_nsec() as u32), me.as_ref().map(|x| (x.atime() as u64, x.atime_nsec() as u32)), (3_000_000u64, 11u32))
+                                } else {
+                                    ((a.mtime, a.mtimensec), (m.mtime() as u64, m.mtime_nsec() as u32), me.as_ref().map(|x| (x.mtime() as u64, x.mtime_nsec() as u32)), (4_000_000u64, 13u32))
+                                };
+                                if host_t == want && (rep_t != want || exp_t != Some(want)) {
+                                    self.bad("setattr/single-time", format!("setattr of {} only: reply carries {:?}, the exported file has {:?}, the host call gives {:?}", if kind == 8 { "atime" } else { "mtime" }, rep_t, exp_t, host_t));
                                 }
                             }
                         }
@@ -1519,7 +1554,7 @@ pub fn c08(args: &Args) -> Report {
     let mut cfgs: Vec<PtCfg> = Vec::new();
     for fh in [false, true] {
         for hi in [false, true] {
-            cfgs.push(PtCfg { inode_file_handles: fh, use_host_ino: hi, ..b.clone() });
+            cfgs.push(PtCfg { inode_file_handles: fh, use_host_ino: hi, mntid: hi, ..b.clone() });
         }
     }
     cfgs.push(PtCfg { behind_vfs: true, ..b.clone() });
@@ -1956,7 +1991,7 @@ pub fn c15(args: &Args) -> Report {
         cfgs.push(PtCfg { no_open: bits & 1 != 0, no_opendir: bits & 2 != 0, inode_file_handles: bits & 4 != 0, cache: 1, ..b.clone() });
     }
     cfgs.push(PtCfg { behind_vfs: true, ..b.clone() });
-    cfgs.push(PtCfg { behind_vfs: true, inode_file_handles: true, no_opendir: true, ..b.clone() });
+    cfgs.push(PtCfg { behind_vfs: true, inode_file_handles: true, no_opendir: true, mntid: true, ..b.clone() });
     // zero-message open/opendir negotiated by the Vfs while the passthrough's own Config leaves them off
     cfgs.push(PtCfg { behind_vfs: true, no_open: true, no_opendir: true, layer_cfg_off: true, cache: 1, ..b.clone() });
     cfgs.push(PtCfg { behind_vfs: true, no_open: true, layer_cfg_off: true, cache: 1, ..b.clone() });
